@@ -57,12 +57,12 @@ fn c02_effective_name_with_non_ascii_version() {
 
 // ---------------------------------------------------------------------------
 // C13, tier B′ (bounded-exhaustive, native): MappingInfo::aggregate (through procfs-core's real parser) on
-// EVERY memory map of 1..=3 lines over this per-line domain (64 lines per position, 266 304 maps):
+// EVERY memory map of 1..=3 lines over this per-line domain (80 lines per position, 518 480 maps):
 //   placement : directly after the previous line, or after a one-page hole
 //   size      : one page
 //   perms     : r-xp, rw-p, r--p, ---p
 //   offset    : 0 or 0x1000
-//   name      : none, /a, /b, "/a (deleted)"
+//   name      : none, /a, /b, "/a (deleted)", "/a (deleted) (deleted)" (an unlinked file whose own name ends in the marker)
 // plus, for each map, every choice of vDSO address among {none, start of line k}.
 // Checked against the statement (independent reference predicates, no re-implementation of the merge loop):
 //   P1 ascending, no overlaps            P2 every line lies in exactly one derived mapping
@@ -78,7 +78,7 @@ fn c02_effective_name_with_non_ascii_version() {
 struct Line { start: usize, end: usize, perms: usize, offset: usize, name: usize }
 
 const PERMS: [&str; 4] = ["r-xp", "rw-p", "r--p", "---p"];
-const NAMES: [&str; 4] = ["", "/a", "/b", "/a (deleted)"];
+const NAMES: [&str; 5] = ["", "/a", "/b", "/a (deleted)", "/a (deleted) (deleted)"];
 
 fn render(lines: &[Line]) -> String {
     let mut s = String::new();
@@ -90,7 +90,8 @@ fn render(lines: &[Line]) -> String {
 }
 
 fn sanitized(name: usize) -> Option<&'static str> {
-    match name { 0 => None, 1 | 3 => Some("/a"), _ => Some("/b") }
+    // the kernel appends ONE marker: an unlinked file that is itself called "/a (deleted)" is a different file from "/a"
+    match name { 0 => None, 1 | 3 => Some("/a"), 4 => Some("/a (deleted)"), _ => Some("/b") }
 }
 fn inaccessible(l: &Line) -> bool { l.perms == 3 }
 fn executable(l: &Line) -> bool { l.perms == 0 }
@@ -223,7 +224,7 @@ fn check_map(lines: &[Line], gate: Option<usize>, n_eval: &mut usize) -> std::re
 fn enumerate_maps(max_lines: usize) -> (usize, Option<String>) {
     let base = 0x7f00_0000_0000usize;
     let mut n_eval = 0usize;
-    let per_line = 2 * 4 * 2 * 4;
+    let per_line = 2 * 4 * 2 * NAMES.len();
     for n in 1..=max_lines {
         let total = (per_line as u64).pow(n as u32);
         for code in 0..total {
@@ -233,7 +234,7 @@ fn enumerate_maps(max_lines: usize) -> (usize, Option<String>) {
             for _ in 0..n {
                 let d = (c % per_line as u64) as usize;
                 c /= per_line as u64;
-                let hole = d & 1; let perms = (d >> 1) & 3; let off = (d >> 3) & 1; let name = (d >> 4) & 3;
+                let hole = d & 1; let perms = (d >> 1) & 3; let off = (d >> 3) & 1; let name = d >> 4;
                 let start = cursor + hole * 0x1000;
                 let end = start + 0x1000;
                 lines.push(Line { start, end, perms, offset: off * 0x1000, name });
